@@ -156,7 +156,7 @@ fn big_cfg(rng: &mut Rng, i: u64) -> BuildCfg {
 
 /// every compression type with every level it accepts (the random configurations reach a given
 /// (type, level) pair only now and then), each over an empty, a one-byte and a page-sized file
-fn ladder() -> Vec<Option<(String, i64)>> {
+pub fn ladder() -> Vec<Option<(String, i64)>> {
     let mut v: Vec<Option<(String, i64)>> = vec![None, Some(("none".into(), 0))];
     for l in 0..=9 {
         v.push(Some(("gzip".into(), l)));
